@@ -74,6 +74,23 @@ def run_r2(drv, prop, tier, args):
 def dispatch(drv, prop, tier, args):
     if prop in ("C02", "C03"):
         return run_r2(drv, prop, tier, args)
+    if prop in ("C09", "C12"):
+        # the case file (encodings + R2's verdicts) is regenerated on every run
+        ref = os.path.join(drv.ROOT, "ref")
+        p = subprocess.run([sys.executable, os.path.join(ref, "anchors.py")], cwd=ref, capture_output=True, text=True)
+        if p.returncode != 0:
+            sys.stderr.write(p.stdout + p.stderr)
+            print("MACHINERY-ERROR R2 anchors failed", file=sys.stderr)
+            return 2
+        cases = os.path.join(drv.ROOT, "target", f"c09_cases_{tier}.json")
+        os.makedirs(os.path.dirname(cases), exist_ok=True)
+        g = [sys.executable, os.path.join(ref, "gen_c09.py"), cases, os.environ.get("VERIF_SEED", "0")] + (["thorough"] if tier == "thorough" else [])
+        p = subprocess.run(g, cwd=ref, capture_output=True, text=True)
+        if p.returncode != 0:
+            sys.stderr.write(p.stdout + p.stderr)
+            print("MACHINERY-ERROR case generation failed", file=sys.stderr)
+            return 2
+        return harness(drv, prop, tier, args, extra_args=["--cases", cases])
     if prop == "C16":
         # slot scan from a guard-off build first (the ledger line must not be what keeps a wipe alive),
         # then scan + drop ledger from the guard-on build; one evidence file
